@@ -123,6 +123,13 @@ impl GcEngine {
             f.prop = self.prop.into();
             return Some(f);
         }
+        if self.prop == "C03" {
+            // the same calls with nothing asked in between (see C03::quiet)
+            let mut q = crate::engine::C03::quiet();
+            if let Some(f) = run_concrete(cfg, calls, &mut q, None).failure {
+                return Some(f);
+            }
+        }
         if self.prop == "C04" && out.closed.is_none() {
             return self.metamorphic(cfg, &out);
         }
@@ -148,6 +155,11 @@ impl Engine for GcEngine {
         let mut failure = out.failure.clone();
         if failure.is_none() && self.prop == "C04" && out.closed.is_none() {
             failure = self.metamorphic(cfg, &out);
+        }
+        if failure.is_none() && self.prop == "C03" && case.order_sel % 4 == 3 {
+            // one case in four runs once more with nothing asked between the history's own queries
+            let mut q = crate::engine::C03::quiet();
+            failure = run_concrete(cfg, &out.calls, &mut q, None).failure;
         }
         if let Some(f) = &mut failure {
             f.prop = self.prop.into();
